@@ -121,6 +121,15 @@ func forwardPairs() []ReloadPair {
 			Old:    reloadHeader + route("/a", "rate_limit {\n    rps 1\n    burst 1\n  }", "pull { path /pull/a }"),
 			New:    reloadHeader + route("/a", "pull { path /pull/a }"),
 			Probes: []ReloadProbe{{Name: "two_posts", Kind: "ingress2", Method: "POST", Path: "/a", Body: "{}"}}},
+		// a limit that CHANGES (both configurations limit the same route / the listener): the limiter in force afterwards must be the new one
+		{Name: "route_rate_limit_changed",
+			Old:    reloadHeader + route("/a", "rate_limit {\n    rps 1\n    burst 1\n  }", "pull { path /pull/a }"),
+			New:    reloadHeader + route("/a", "rate_limit {\n    rps 1\n    burst 2\n  }", "pull { path /pull/a }"),
+			Probes: []ReloadProbe{{Name: "three_posts", Kind: "ingress3", Method: "POST", Path: "/a", Body: "{}"}}},
+		{Name: "global_rate_limit_changed",
+			Old:    strings.Replace(reloadHeader, "listen 127.0.0.1:0\n", "listen 127.0.0.1:0\n  rate_limit {\n    rps 1\n    burst 2\n  }\n", 1) + route("/a", "pull { path /pull/a }"),
+			New:    strings.Replace(reloadHeader, "listen 127.0.0.1:0\n", "listen 127.0.0.1:0\n  rate_limit {\n    rps 1\n    burst 1\n  }\n", 1) + route("/a", "pull { path /pull/a }"),
+			Probes: []ReloadProbe{{Name: "three_posts", Kind: "ingress3", Method: "POST", Path: "/a", Body: "{}"}}},
 		{Name: "pull_token_override_removed",
 			Old:    reloadHeader + route("/a", "pull {\n    path /pull/x\n    auth token raw:tok-a\n  }"),
 			New:    reloadHeader + route("/a", "pull { path /pull/x }"),
@@ -189,6 +198,14 @@ func (r *reloadInst) answer(p ReloadProbe) string {
 		first := r.answer(q)
 		second := r.answer(q)
 		return first + " ; " + second
+	case "ingress3":
+		// three requests in immediate succession: tells burst 1 from burst 2
+		q := p
+		q.Kind = "ingress"
+		a1 := r.answer(q)
+		a2 := r.answer(q)
+		a3 := r.answer(q)
+		return a1 + " ; " + a2 + " ; " + a3
 	case "deliver":
 		return r.deliverAnswer(p)
 	case "pulln":
@@ -397,11 +414,23 @@ func RunInterleaving(scratch string, pair ReloadPair, p ReloadProbe, order []str
 	}
 	verifhook.SetGate(nil)
 	r.seed(2) // fresh ready messages in the routes as they are now
-	if p.Kind == "ingress2" {
-		time.Sleep(1100 * time.Millisecond) // the probe above may have used the new limiter's token: let it refill
+	if d := refillWait(p); d > 0 {
+		time.Sleep(d) // the probe above may have used the new limiter's tokens: let it refill
 	}
 	settled = r.answer(p)
 	return procs["p"].result, segs["p"], segs["r"], settled, procs["r"].result == "ok", nil
+}
+
+// refillWait: how long a stateful (several-request) probe has to wait until the limiter it exhausted is full again
+// (rps 1; burst 1 for the two-request probes, at most burst 2 for the three-request ones).
+func refillWait(p ReloadProbe) time.Duration {
+	switch p.Kind {
+	case "ingress2":
+		return 1100 * time.Millisecond
+	case "ingress3":
+		return 2200 * time.Millisecond
+	}
+	return 0
 }
 
 // FailedReload runs a reload that must be refused and compares all probes before and after.
@@ -415,8 +444,8 @@ func FailedReload(scratch string, pair ReloadPair, class string) (map[string]any
 	ans := func() string {
 		var parts []string
 		for _, p := range pair.Probes {
-			if p.Kind == "ingress2" {
-				time.Sleep(1100 * time.Millisecond) // let the token bucket of the previous round refill
+			if d := refillWait(p); d > 0 {
+				time.Sleep(d) // let the token bucket of the previous round refill
 			}
 			r.seed(probeSerial + 1000)
 			parts = append(parts, p.Name+":"+r.answer(p))
